@@ -484,7 +484,8 @@ def read_js(text: str, names: dict) -> dict:
                 continue
             fn, rhs = m.group(1), m.group(2)
             m2 = re.fullmatch(r"type_map\.string\((-?\d+)\)", rhs)
-            m3 = re.fullmatch(r"Array\((-?\d+)\)\.fill\((.+)\(\)\)", rhs)
+            m3 = re.fullmatch(r"Array\.from\(\{length: (-?\d+)\}, \(\) => (.+)\(\)\)", rhs) or \
+                re.fullmatch(r"Array\((-?\d+)\)\.fill\((.+)\(\)\)", rhs)
             m4 = re.fullmatch(r"(.+)\(\)", rhs)
             if m2:
                 cur["fields"].append([fn, ("n", 0, 3), int(m2.group(1)), "string", None])
@@ -518,7 +519,7 @@ def read_js(text: str, names: dict) -> dict:
             out["events"].append([0, 1 if m.group(1) == "SDF" else 2, m.group(2)])
             cur = dict(name=m.group(2), ismsg=m.group(1) == "MDF", fields=[])
             continue
-        m = re.fullmatch(r"RTMA\.aliases\.(\w+) = type_map\.(\w+)\(\);", s)
+        m = re.fullmatch(r"RTMA\.aliases\.(\w+) = type_map\.(\w+)(\(\))?;", s)
         if m:
             aliases[m.group(1)] = ("n", 0, 3 if m.group(2) in ("char", "string") else 0)
             out["aliases"].append([m.group(1), aliases[m.group(1)]])
@@ -529,6 +530,7 @@ def read_js(text: str, names: dict) -> dict:
             out["events"].append([1, 3, m.group(3)])
             out["events"].append([0, {"SDF": 1, "MDF": 2, "aliases": 0}[m.group(1)], m.group(2)])
             out["aliases"].append([m.group(2), ("s" if m.group(3) == "SDF" else "m" if m.group(3) == "MDF" else "a", m.group(4))])
+            aliases[m.group(2)] = ("s" if m.group(3) == "SDF" else "m", m.group(4)) if m.group(3) != "aliases" else aliases.get(m.group(4), ("?", m.group(4)))
             continue
         m = re.fullmatch(r"RTMA\.(constants|HID|MID|MT|HASH)\.(\w+) = (.+);", s)
         if m:
@@ -906,8 +908,8 @@ def random_closure(rng, natives: List[str], knobs: dict, nfiles: Optional[int] =
 
     def field_type(in_struct: bool):
         opts = ["n"] * 5
-        nat_al = [a for a, (k, _) in aliases.items() if k == "n"]
-        if nat_al and rng.random() < knobs.get("alias_field", 0.0):
+        nat_al = [a for a, (k, _) in aliases.items() if k == "n" or knobs.get("alias_struct", 0.0) > 0]
+        if nat_al and rng.random() < max(knobs.get("alias_field", 0.0), knobs.get("alias_struct", 0.0) * 0.5):
             opts += ["a"] * 3
         if structs:
             opts += ["s"] * 3
